@@ -206,3 +206,45 @@ func TestReproArrivalOrder(t *testing.T) {
 	r.w("a", 40, last("l", 3))
 	r.check("table file + memory database", true, f("l"))
 }
+
+// memdb time_series_index.go Load: the []*fieldEntry of one memFilterResultSet is shared by the loaders of all series
+// containers; they run in parallel on the Scanner pool and each positions the entry on its current series' buffer
+// (fm.Reset(buf) then DownSampling(fm)). More than 65 536 series of one metric in one memory database (2 containers)
+// -> values of other series, different every run. From the table file the same queries are right.
+func TestReproParallelContainerLoadsShareFieldEntry(t *testing.T) {
+	r := newRepro(t, nil)
+	r.m = node.NewModel(10_000)
+	const n = 65536 + 3000
+	var batch []node.Point
+	for i := 0; i < n; i++ {
+		batch = append(batch, node.Point{Metric: "m", Timestamp: r.t0 + int64(50+i%12)*10_000 + 1000,
+			Tags:   map[string]string{"uid": fmt.Sprintf("u%d", i), "host": fmt.Sprintf("h%d", i%40)},
+			Fields: []node.Field{sum("f", float64(i+1))}})
+		if len(batch) == 4000 || i == n-1 {
+			if _, err := r.n.Write(batch); err != nil {
+				t.Fatal(err)
+			}
+			r.m.Add(batch)
+			batch = nil
+		}
+	}
+	bad := 0
+	for round := 0; round < 2; round++ {
+		for h := 0; h < 40; h++ {
+			q := &node.Query{Metric: "m", Items: []node.SelectItem{f("f")}, Start: r.t0, End: r.t0 + 3600_000 - 1000, GroupBy: []string{"uid"},
+				Cond: node.TagCmp{Key: "host", Op: "=", Values: []string{fmt.Sprintf("h%d", h)}}}
+			res := r.c.Query(q.SQL())
+			if res.Err != nil || res.Stuck {
+				t.Fatalf("%s -> err=%v stuck=%v", q.SQL(), res.Err, res.Stuck)
+			}
+			if diffs := node.Compare(r.m.Eval(q), res.ResultSet, []string{"uid"}, node.CompareOptions{}); len(diffs) > 0 {
+				bad++
+				if bad <= 3 {
+					t.Errorf("%s (%s): %d differences, first %s", q.SQL(), map[int]string{0: "memory database", 1: "table file"}[round], len(diffs), diffs[0])
+				}
+			}
+		}
+		fmt.Printf("%d series, 40 queries over the %s: %d wrong\n", n, map[int]string{0: "memory database", 1: "table file"}[round], bad)
+		r.n.FlushAll()
+	}
+}
